@@ -113,6 +113,9 @@ def run_shard(spec, rep):
             for typ in (CompositionType.weight, CompositionType.molar):
                 try:
                     Composition(p=bad, type=typ)
+                except InvBroken:
+                    # the LIBRARY accepted the value; only the harness's own class invariant objected afterwards
+                    rep.require("out-of-range fraction rejected", False, case, {"accepted": repr(bad), "type": typ, "caught_by": "harness invariant only"})
                 except Exception:
                     rep.require("out-of-range fraction rejected", True, case)
                 else:
